@@ -24,10 +24,10 @@ static const double TOL_SINCOS = 2.5;   // ulp; "a couple of ulp", probe 1.55 / 
 static const double TOL_TAND = 4.0;     // ulp; probe 2.92
 static const double TOL_ATAN = 2.5;     // ulp
 // sincosde: no documented figure.  err <= K * (ulp(ref) + (pi/180) * (ulp(r + t)/2 + g/2)); calibrated (see report), frozen
-static const double TOL_SINCOSDE = 4.0;
+static const double TOL_SINCOSDE = 5.0;   // worst observed 1.23 units (thorough tier, f32 x = 29, t = -1.0e-6), x 4, frozen
 // tauf/taupf: no documented figure ("high relative accuracy"): K eps * max(1, 1/(1 - e^2)); calibrated, frozen
-static const double TOL_TAU_EPS = 16.0;
-static const double TOL_EATANHE_EPS = 16.0;
+static const double TOL_TAU_EPS = 16.0;   // worst observed 2.75 (f80 round trip, es = 0.9); floor of 16 eps applies
+static const double TOL_EATANHE_EPS = 16.0;   // worst observed 1.62 eps x cond
 
 // ------------------------------------------------------------------ type traits
 template <class T> struct Tr;
@@ -56,7 +56,7 @@ struct Rep {
 enum { W_SIND, W_COSD, W_SINCOSD, W_TAND, W_ATAND, W_ATAN2D, W_SINCOSDE, W_TAUPF, W_TAUF, W_TAURT, W_EATANHE,
        W_ACC, W_ACCVAL, W_ACCSUM, W_ACCNORM, W_N };
 static const char* WNAME[W_N] = {"sind.err_ulp(tol2.5)", "cosd.err_ulp(tol2.5)", "sincosd.err_ulp(tol2.5)", "tand.err_ulp(tol4)",
-  "atand.err_ulp(tol2.5)", "atan2d.err_ulp(tol2.5)", "sincosde.err_over_unit(tol4)", "taupf.err_eps_over_cond(tol16)",
+  "atand.err_ulp(tol2.5)", "atan2d.err_ulp(tol2.5)", "sincosde.err_over_unit(tol5)", "taupf.err_eps_over_cond(tol16)",
   "tauf.err_eps_over_cond(tol16)", "tauf(taupf).err_eps_over_cond(tol16)", "eatanhe.err_eps_over_cond(tol16)",
   "accumulator.err_over_2^-2p_sumabs(tol8)", "accumulator.value_err_beyond_bound_ulp_normalised_states(tol2)", "accumulator.Sum(y)_err_beyond_bound_ulp(tol2)",
   "accumulator.lowword_over_ulp_of_highword(documented1,tol2)"};
@@ -332,7 +332,7 @@ template <class T> static void check_tau(Ctx& ctx, T tau, T es) {
   else if (std::fabs(tau) >= std::numeric_limits<T>::min() * 1024) {
     T tf = Math::tauf<T>(tau, es); f128 tfR = tauf_ref((f128)tau, E);
     if (isnanq(tfR)) ctx.count("tauf_reference_newton_did_not_converge");
-    else if (std::fabs(tau) < 2 / std::sqrt(eps<T>()) / 4 || std::fabs(tau) > 2 / std::sqrt(eps<T>()) * 4 || true) {
+    else {
       double e = (double)(fabsq((f128)tf - tfR) / fabsq(tfR) / ep) / cond; if (!(tf == tf)) e = INFINITY;
       if (!prolate) track(ti, W_TAUF, e, tau, es);
       if (!(e <= TOL_TAU_EPS)) FAIL("tauf-accuracy", "tauf = " + V(tf) + " reference " + q2s(tfR) + " error " + fmt(e) + " eps x cond " + fmt(cond), true);
